@@ -1,7 +1,232 @@
-import TD.C08.Model
+import TD.C08.LemmasRound
 
+/-!
+# C08 — LIS tables and data format specifications survive encode then decode
+
+Property theorems only.  The model (`TD.C08.Model`) transcribes `LogiRec.py` / `RepCode.py` / `Mnem.py`; it is tied to
+the Python source by the correspondence run of `./check C08`.
+-/
 namespace TD.C08
 
-theorem placeholder : to68 ⟨0, 0⟩ = 0x40000000 := by decide
+/-! ## Component blocks -/
+
+/-- **Component block round trip.** A block built by `CbEngValWrite(t, v, m, units=u)` from a legal value (byte string
+of at most 255 bytes → code 65, float → 68, integer → 66 / 79 / 73 by range) with 4-byte mnemonic and units is written
+by `lisBytes()` and read back by `CbEngValRead` with the same type, code, size, category, mnemonic and units and the
+value `rtVal v` (`v` itself for bytes and integers, `from68(to68 v)` for floats) — unless it is an empty byte string at
+the very end of the logical data (finding C08-EMPTYLAST: it then reads as `None`). -/
+theorem cb_roundtrip (t : Nat) (v : Val) (m : Bytes) (u : Option Bytes) (rest : Bytes)
+    (ht : t = 73 ∨ t = 0 ∨ t = 69) (hv : v.legal) (hm : m.length = 4) (hu : (unitsOf u).length = 4)
+    (hne : v = .bytes [] → rest ≠ []) :
+    ∃ cb bs, cbWrite t v m u = .ok cb ∧ encCb cb = .ok bs ∧
+      readCb (bs ++ rest) = .ok (⟨t, rcOf v, sizeOf v, 0, m, unitsOf u, some (rtVal v)⟩, rest) := by
+  obtain ⟨bs, he, _, hr⟩ := cb_enc_read t v m (unitsOf u) rest (by omega) hv hm hu hne
+  exact ⟨_, bs, cbWrite_eq t v m u ht hv, he, hr⟩
+
+/-- the empty-bytes-at-the-end case is really different: the value comes back as `None` (what the code does) -/
+theorem cb_empty_last_reads_none (t : Nat) (m un : Bytes) (hm : m.length = 4) (hu : un.length = 4) :
+    readCb ([t, 65, 0, 0] ++ m ++ un) = .ok (⟨t, 65, 0, 0, m, un, none⟩, []) := by
+  obtain ⟨m0, m1, m2, m3, rfl⟩ := len4 m hm
+  obtain ⟨u0, u1, u2, u3, rfl⟩ := len4 un hu
+  simp [readCb, unpackN, readLr]
+
+/-! ## Tables -/
+
+def tcbOf (t : TableSpec) : Cb := cellCb 73 mnemTYPE ⟨t.name, some spaces4⟩
+
+/-- the blocks of all rows of the specification, before de-duplication -/
+def allRowCbs (t : TableSpec) : List (List Cb) := t.rows.map (fun r => rowCbsFrom 0 r t.mnems)
+
+/-- The domain of `table_roundtrip`. -/
+structure TableOk (t : TableSpec) : Prop where
+  lrType : isTableLrType t.lrType = true
+  nameLegal : t.name.legal
+  nameNe : t.name ≠ .bytes []
+  mnems4 : ∀ m ∈ t.mnems, m.length = 4
+  mnemsNodup : t.mnems.Nodup
+  mnemsNe : t.mnems ≠ []
+  rowLen : ∀ r ∈ t.rows, r.length = t.mnems.length
+  cells : ∀ r ∈ t.rows, ∀ c ∈ r, c.v.legal ∧ (unitsOf c.u).length = 4
+  /-- row names are not changed by a write/read cycle (bytes, integers, code-68 representable floats) -/
+  stableNames : ∀ r ∈ t.rows, ∀ c, r.head? = some c → rtVal c.v = c.v
+  /-- a column named `MNEM` holds byte strings (otherwise: finding C08-MNEMTYPE, `TypeError`) -/
+  mnemCol : ∀ r ∈ allRowCbs t, MnemOk r
+  /-- the very last block written is not an empty byte string (otherwise: finding C08-EMPTYLAST) -/
+  lastNonEmpty : ∀ cb, ((kept (allRowCbs t)).flatten).getLast? = some cb → cb.val ≠ some (.bytes [])
+
+theorem rowValue_rowCbs (r : List Cell) (ms : List Bytes) (hl : r.length = ms.length) (hne : ms ≠ []) :
+    ∃ c, r.head? = some c ∧ rowValue (rowCbsFrom 0 r ms) = some c.v := by
+  cases r with
+  | nil => cases ms with
+    | nil => exact absurd rfl hne
+    | cons m ms => simp at hl
+  | cons c cs => cases ms with
+    | nil => simp at hl
+    | cons m ms => exact ⟨c, rfl, rfl⟩
+
+/-- **Table round trip.** For every table specification in the domain: `LrTableWrite` builds a table `W` whose rows
+are the first-kept rows of the specification (`kept`), `genLisBytes` succeeds, and `LrTableRead` on those bytes gives a
+table `R` with the same name block, the same rows in the same order, cell for cell the same type / code / size /
+mnemonic / units and the value passed through `rtVal`, a row index that lists the row names in order, and the same
+column labels.  (`W.rows` and `tcbOf`/`rowCbsFrom` spell out name, mnemonic, units and value of each cell.) -/
+theorem table_roundtrip (t : TableSpec) (ok : TableOk t) :
+    ∃ W bs R, tableWrite t = .ok W ∧ tableLrBytes t.lrType W = .ok bs ∧ tableRead bs = .ok R ∧
+      W.tcb = some (tcbOf t) ∧ W.rows = kept (allRowCbs t) ∧
+      R.tcb = some (rtCb (tcbOf t)) ∧ R.rows = W.rows.map (·.map rtCb) ∧
+      R.rowIdx.map (·.1) = R.rows.map rowValue ∧ R.rowIdx.map (·.2) = List.range R.rows.length ∧
+      colKeys W.cols = (if t.rows = [] then [] else t.mnems) ∧
+      colKeys R.cols = (if W.rows = [] then [] else t.mnems) := by
+  -- the writer
+  have hlt : ¬ (!isTableLrType t.lrType) = true := by simp [ok.lrType]
+  have htcb : cbWrite 73 t.name mnemTYPE (some spaces4) = .ok (tcbOf t) :=
+    cbWrite_cell 73 mnemTYPE ⟨t.name, some spaces4⟩ (by simp) ok.nameLegal
+  let st0 : TS := { TS.empty with tcb := some (tcbOf t) }
+  have hW0 : tableWrite t = runRows (allRowCbs t) st0 := by
+    simp only [tableWrite, hlt, if_false, htcb]
+    exact writeRows_eq t.mnems ok.mnemsNe t.rows st0 rfl ok.rowLen (fun r hr x hx => (ok.cells r hr x hx).1)
+  have hinv0 : Inv st0 := ⟨rfl, rfl⟩
+  obtain ⟨W, hW, hWt, _, hWr, hWc⟩ := runRows_spec (allRowCbs t) ok.mnemCol st0 hinv0
+  have hWr' : W.rows = kept (allRowCbs t) := by simpa [st0, TS.empty, kept] using hWr
+  have hallmn : ∀ r ∈ allRowCbs t, r.map (·.mnem) = t.mnems := by
+    intro r hr
+    obtain ⟨r0, hr0, rfl⟩ := List.mem_map.1 hr
+    exact rowCbsFrom_mnems r0 t.mnems 0 (ok.rowLen r0 hr0)
+  have hWck : colKeys W.cols = (if t.rows = [] then [] else t.mnems) := by
+    rw [hWc]
+    have := colKeys_rows t.mnems ok.mnemsNodup (allRowCbs t) hallmn
+    simpa [st0, TS.empty, allRowCbs] using this
+  -- every block is good
+  have hgoodT : CbGood (tcbOf t) :=
+    ⟨73, t.name, mnemTYPE, spaces4, rfl, by decide, ok.nameLegal, rfl, rfl⟩
+  have hgoodAll : ∀ r ∈ allRowCbs t, ∀ cb ∈ r, CbGood cb := by
+    intro r hr cb hcb
+    obtain ⟨r0, hr0, rfl⟩ := List.mem_map.1 hr
+    exact rowCbs_good r0 t.mnems 0 (ok.cells r0 hr0) ok.mnems4 cb hcb
+  have hkeptMem : ∀ r ∈ W.rows, r ∈ allRowCbs t := by
+    intro r hr; rw [hWr'] at hr; exact keptAux_mem hr
+  -- the bytes
+  have hinorder : ∀ r ∈ W.rows, rowInColOrder W.cols r = r := by
+    intro r hr
+    have hne : t.rows ≠ [] := by
+      intro h
+      have := hkeptMem r hr
+      simp [allRowCbs, h] at this
+    apply rowInColOrder_self
+    · rw [hWck, hallmn r (hkeptMem r hr)]; simp [hne]
+    · rw [hallmn r (hkeptMem r hr)]; exact ok.mnemsNodup
+  let rowItems : List (Bytes × Cb) := (W.rows.flatten).map (fun cb => (encRaw cb, rtCb cb))
+  have hflatGood : ∀ cb ∈ W.rows.flatten, CbGood cb := by
+    intro cb hcb
+    obtain ⟨r, hr, hcr⟩ := List.mem_flatten.1 hcb
+    exact hgoodAll r (hkeptMem r hr) cb hcr
+  have hgen : genLisBytes W = .ok (encRaw (tcbOf t) ++ rowItems.flatMap (·.1)) := by
+    unfold genLisBytes
+    rw [hWt]
+    have h1 : (W.rows.flatMap (fun row => (rowInColOrder W.cols row).map encCb)) = (W.rows.flatten).map encCb := by
+      rw [List.flatMap_def, List.map_flatten]
+      congr 1
+      apply List.map_congr_left
+      intro r hr; rw [hinorder r hr]
+    have hfm : rowItems.flatMap (·.1) = (W.rows.flatten).flatMap encRaw := by
+      simp only [rowItems, List.flatMap_map]
+    have h2 : concatE ((W.rows.flatten).map encCb) = .ok (rowItems.flatMap (·.1)) := by
+      have := concatE_ok ((W.rows.flatten).map (fun cb => (encRaw cb, cb))) (by
+        intro p hp
+        obtain ⟨cb, hcb, rfl⟩ := List.mem_map.1 hp
+        exact (cbGood_enc cb (hflatGood cb hcb)).1)
+      rw [hfm]
+      simpa only [List.map_map, Function.comp_def, List.flatMap_map] using this
+    simp only [st0, List.singleton_append, concatE, (cbGood_enc _ hgoodT).1, h1, h2]
+  refine ⟨W, [t.lrType, 0] ++ (encRaw (tcbOf t) ++ rowItems.flatMap (·.1)), ?_⟩
+  -- the reader
+  have hitemsEnc : ∀ p ∈ rowItems, EncOk p.1 p.2 := by
+    intro p hp
+    obtain ⟨cb, hcb, rfl⟩ := List.mem_map.1 hp
+    exact (cbGood_enc cb (hflatGood cb hcb)).2.1
+  have hitemsLast : ∀ p, rowItems.getLast? = some p → p.2.val ≠ some (.bytes []) := by
+    intro p hp
+    simp only [rowItems, List.getLast?_map, Option.map_eq_some_iff] at hp
+    obtain ⟨cb, hcb, rfl⟩ := hp
+    have := ok.lastNonEmpty cb (by rw [← hWr']; exact hcb)
+    intro h
+    apply this
+    simp only [rtCb, Option.map_eq_some_iff] at h
+    obtain ⟨v, hv, hv2⟩ := h
+    rw [hv, rtVal_empty hv2]
+  have hfuel : rowItems.length ≤ (rowItems.flatMap (·.1)).length := by
+    apply length_le_flatMap
+    intro p hp
+    obtain ⟨cb, hcb, rfl⟩ := List.mem_map.1 hp
+    have := (cbGood_enc cb (hflatGood cb hcb)).2.2
+    simp only; omega
+  have hloop := tableLoop_enc rowItems hitemsEnc hitemsLast
+  let stR : TS := { TS.empty with tcb := some (rtCb (tcbOf t)) }
+  let rtRows : List (List Cb) := W.rows.map (·.map rtCb)
+  have hsnd : rowItems.map (·.2) = rtRows.flatten := by
+    simp [rowItems, rtRows, List.map_map, Function.comp_def, List.map_flatten]
+  have hRowOkAll : ∀ r ∈ allRowCbs t, RowOk r := by
+    intro r hr
+    obtain ⟨r0, hr0, rfl⟩ := List.mem_map.1 hr
+    exact rowOk_rowCbs r0 t.mnems (ok.rowLen r0 hr0) ok.mnemsNe
+  have hrtRowOk : ∀ r ∈ rtRows, RowOk r := by
+    intro r hr
+    obtain ⟨r0, hr0, rfl⟩ := List.mem_map.1 hr
+    exact rowOk_map_rt r0 (hRowOkAll r0 (hkeptMem r0 hr0))
+  have hrtMnemOk : ∀ r ∈ rtRows, MnemOk r := by
+    intro r hr
+    obtain ⟨r0, hr0, rfl⟩ := List.mem_map.1 hr
+    exact mnemOk_map_rt r0 (ok.mnemCol r0 (hkeptMem r0 hr0))
+  have hreg := reader_regroup rtRows hrtRowOk stR rfl
+  rw [indexLast_nil stR rfl] at hreg
+  have hreg' : (stepAll rtRows.flatten stR).bind indexLast = runRows rtRows stR := hreg
+  obtain ⟨R, hR, hRt, hRinv, hRr, hRc⟩ := runRows_spec rtRows hrtMnemOk stR ⟨rfl, rfl⟩
+  have hread : tableRead ([t.lrType, 0] ++ (encRaw (tcbOf t) ++ rowItems.flatMap (·.1))) = .ok R := by
+    have hfirst : readCb (encRaw (tcbOf t) ++ rowItems.flatMap (·.1)) = .ok (rtCb (tcbOf t), rowItems.flatMap (·.1)) := by
+      apply (cbGood_enc _ hgoodT).2.1.2
+      intro h
+      exfalso
+      simp only [rtCb, tcbOf, cellCb, Option.map_some, Option.some.injEq] at h
+      exact ok.nameNe (rtVal_empty h)
+    have hu2 : unpackN 2 ([t.lrType, 0] ++ (encRaw (tcbOf t) ++ rowItems.flatMap (·.1)))
+        = .ok ([t.lrType, 0], encRaw (tcbOf t) ++ rowItems.flatMap (·.1)) :=
+      unpackN_append [t.lrType, 0] _ (by simp)
+    unfold tableRead
+    rw [hu2]
+    simp only [List.getD_cons_zero, hlt, if_false, hfirst]
+    have h73 : (rtCb (tcbOf t)).type = 73 := rfl
+    simp only [h73, if_true]
+    rw [hloop _ stR hfuel, hsnd]
+    have : (stepAll rtRows.flatten stR).bind indexLast = .ok R := by rw [hreg']; exact hR
+    cases hs : stepAll rtRows.flatten stR with
+    | error e => rw [hs] at this; simp [Except.bind] at this
+    | ok st' => rw [hs] at this; simpa [Except.bind] using this
+  -- what was read
+  have hstable : ∀ r ∈ kept (allRowCbs t), rowValue (r.map rtCb) = rowValue r := by
+    intro r hr
+    have hmem : r ∈ allRowCbs t := keptAux_mem hr
+    obtain ⟨r0, hr0, rfl⟩ := List.mem_map.1 hmem
+    obtain ⟨c, hc, hval⟩ := rowValue_rowCbs r0 t.mnems (ok.rowLen r0 hr0) ok.mnemsNe
+    cases hrc : rowCbsFrom 0 r0 t.mnems with
+    | nil => rfl
+    | cons a as =>
+      rw [hrc] at hval
+      simp only [List.map_cons, rowValue] at hval ⊢
+      simp only [rtCb, hval, Option.map_some, ok.stableNames r0 hr0 c hc]
+  have hRrows : R.rows = W.rows.map (·.map rtCb) := by
+    rw [hRr]
+    simp only [stR, TS.empty, List.nil_append, List.map_nil, rtRows, hWr']
+    rw [keptAux_map_on (·.map rtCb) _ (fun r hr => hstable r hr)]
+    unfold kept
+    rw [keptAux_idem]
+  have hRck : colKeys R.cols = (if W.rows = [] then [] else t.mnems) := by
+    rw [hRc]
+    have := colKeys_rows t.mnems ok.mnemsNodup rtRows (by
+      intro r hr
+      obtain ⟨r0, hr0, rfl⟩ := List.mem_map.1 hr
+      rw [List.map_map]
+      have : ((fun x => x.mnem) ∘ rtCb) = (fun x : Cb => x.mnem) := rfl
+      rw [this]; exact hallmn r0 (hkeptMem r0 hr0))
+    simpa [stR, TS.empty, rtRows] using this
+  refine ⟨R, by rw [hW0]; exact hW, by simp [tableLrBytes, hgen], hread, hWt, hWr', by rw [hRt], hRrows, hRinv.names, hRinv.idx, hWck, hRck⟩
 
 end TD.C08
